@@ -154,7 +154,8 @@ def evaluate(ck, pidnum, cases, tag):
     return concrete, mism
 
 
-def run_exec(ck, pidnum, bias, quick_n=500, thorough_n=12000, tiny=None):
+def run_exec(ck, pidnum, bias, quick_n=500, thorough_n=12000, tiny=None, extra=None):
+    """extra: optional callable(ck) run before the verdict (end-to-end additions of a property)."""
     pid = ck.pid
     # the tie lemma between the hand-written submit_attempts and the text generated from
     # _StepRecord.execute/restart/_execute/mark_* is an obligation of every execution property
@@ -231,6 +232,12 @@ def run_exec(ck, pidnum, bias, quick_n=500, thorough_n=12000, tiny=None):
             return ("monitor violated on the implementation's trace (found by the post-failure search)", strip(c))
         return None
 
+    if extra is not None:
+        try:
+            extra(ck)
+        except Exception:
+            import traceback
+            ck.mismatch("the end-to-end part of the check could not run to completion", None, traceback.format_exc()[-3000:])
     return ck.finish(search=search)
 
 
